@@ -75,6 +75,104 @@ def count_steps(st, data, ctx, rec=None):
     return c[0]
 
 
+def _expr_ids(node, acc, depth=0):
+    from yaql.language import expressions
+    if id(node) in acc or depth > 40:
+        return
+    if isinstance(node, expressions.Expression):
+        acc.add(id(node))
+        for v in list(getattr(node, '__dict__', {}).values()):
+            if isinstance(v, (list, tuple)):
+                for x in v:
+                    _expr_ids(x, acc, depth + 1)
+            else:
+                _expr_ids(v, acc, depth + 1)
+
+
+def write_point_preemption(rep, rng, quick, baseline):
+    import yaql
+    from yaql.language import contexts, specs, expressions
+    from vf.props import c08
+    classes = [contexts.Context, contexts.MultiContext, contexts.LinkedContext, specs.FunctionDefinition, specs.ParameterDefinition,
+               expressions.Expression]
+    hook = {'armed': False, 'thread': None, 'k': -1, 'n': 0, 'shared': set(), 'fire': None}
+    saved = []
+
+    def trap(cls):
+        orig = cls.__setattr__
+
+        def w(self, name, value):
+            orig(self, name, value)
+            if hook['armed'] and threading.current_thread() is hook['thread'] and id(self) in hook['shared']:
+                hook['n'] += 1
+                if hook['n'] == hook['k']:
+                    hook['armed'] = False
+                    hook['fire']()
+        saved.append((cls, orig))
+        cls.__setattr__ = w
+    for cls in classes:
+        trap(cls)
+    engine = yaql.YaqlFactory().create()
+    runs = 0
+
+    def fresh_world(i, j):
+        shared = yaql.create_context()
+        shared['cfg'] = {'k': [1, 2, 3]}
+        shared = shared.create_child_context()
+        shared['lim'] = 2
+        sa = engine(POOL[i])
+        sb = sa if i == j else engine(POOL[j])
+        ids = set()
+        c = shared
+        while c is not None:
+            ids.add(id(c))
+            c = c.parent
+        for _n, fd in c08.all_fds(shared):
+            ids.add(id(fd))
+            for p_ in fd.parameters.values():
+                ids.add(id(p_))
+        _expr_ids(sa, ids)
+        _expr_ids(sb, ids)
+        return shared, sa, sb, ids
+
+    def one(i, j, k):
+        shared, sa, sb, ids = fresh_world(i, j)
+        res = {}
+
+        def fire():
+            def body():
+                res['b'] = outcome(lambda: sb.evaluate(data=copy.deepcopy(DATAS[1]), context=shared.create_child_context()))
+            th = threading.Thread(target=body)
+            th.start()
+            th.join()
+        hook.update(armed=True, thread=threading.current_thread(), k=k, n=0, shared=ids, fire=fire)
+        try:
+            res['a'] = outcome(lambda: sa.evaluate(data=copy.deepcopy(DATAS[0]), context=shared.create_child_context()))
+        finally:
+            hook['armed'] = False
+        return res, hook['n']
+    try:
+        pairs = [(i, i) for i in range(len(POOL))] + [(i, (i * 7 + 3) % len(POOL)) for i in range(len(POOL))]
+        if quick:
+            pairs = pairs[:len(POOL)] + pairs[len(POOL)::4]
+        for (i, j) in pairs:
+            _, n = one(i, j, -1)
+            for k in range(1, min(n, 12 if quick else 60) + 1):
+                res, _ = one(i, j, k)
+                runs += 1
+                rep.evaluations += 2
+                for who, idx, d in (('a', i, DATAS[0]), ('b', j, DATAS[1])):
+                    if who in res and not same(res[who], baseline(idx, d)):
+                        rep.violation('C18/shared-write-preemption/result-differs',
+                                      '%r suspended after its shared write no. %d while %r ran to completion on the same shared context: %s gave %r, alone it gives %r' % (
+                                          POOL[i], k, POOL[j], 'the suspended one' if who == 'a' else 'the other', res[who], baseline(idx, d)),
+                                      {'statements': [POOL[i], POOL[j]], 'write': k})
+    finally:
+        for cls, orig in saved:
+            cls.__setattr__ = orig
+    return runs
+
+
 def outcome(fn):
     try:
         return ('ok', fn())
@@ -243,6 +341,15 @@ def run(rep, tier, seed, keep=False):
             ss = sched2.get(k, [])
             for sc in (ss if len(ss) <= 4 else rng.sample(ss, 4)):
                 run_schedule([(i, DATAS[0]), (j, DATAS[1])], sc, base=hand)
+        # ---- preemption at writes to shared objects.  Purity.tla's discipline says an evaluation writes only what it owns; where
+        #      the implementation does write a shared object (context, function or parameter definition, statement node) during
+        #      an evaluation, that write is a point where another thread can observe a half-done update: evaluation A is suspended
+        #      right after its k-th such write, B runs to completion on the same shared context, A resumes; both must give what
+        #      they give alone.  (Nothing to do on a tree that keeps the discipline: there are no such writes.)
+        rec.uninstall()
+        nwp = write_point_preemption(rep, rng, quick, baseline)
+        rep.extra['shared_write_preemption_runs'] = nwp
+        rec.install()
         tri = [tuple(rng.sample(range(len(POOL)), 3)) for _ in range(10 if quick else 150)] + [(6, 6, 6), (7, 6, 7)]
         for t3 in tri:
             ss = sched3[(3, 3, 3)]
